@@ -363,4 +363,20 @@ def isfin():
     return P
 
 
-CORPUS = {"corpus_isfin": isfin, "corpus_poison": poison, "corpus_tls": tls, "corpus_async": async_wake, "corpus_sem": sem, "corpus_sync_pb": sync_pb, "corpus_sync_big": sync_big, "corpus_deadlock": deadlock, "corpus_locks": locks, "corpus_sync": sync, "corpus_mpsc": mpsc}
+def stop():
+    """Executions abandoned by a ContinueAfter step bound while tasks are queued on a semaphore: the execution is torn
+    down with the waiters' Acquire futures still alive.  Head of a fair queue wants 2 (1 available), a follower wants 1:
+    dropping the head during the teardown must not try to wake the follower (the task list is gone)."""
+    P = []
+    pid = 280
+    for fair in (1, 0):
+        for bound in (7, 8, 9, 10, 12):
+            P.append(prog(pid, "corpus_stop", [
+                [op("spawn", v=1), op("spawn", v=2), op("acquire", o=0, v=2)],
+                [op("acquire", o=0, v=1)],
+                [op("yield"), op("yield")]], sems=[(1, fair)], maxsteps=-bound))
+            pid += 1
+    return P
+
+
+CORPUS = {"corpus_stop": stop, "corpus_isfin": isfin, "corpus_poison": poison, "corpus_tls": tls, "corpus_async": async_wake, "corpus_sem": sem, "corpus_sync_pb": sync_pb, "corpus_sync_big": sync_big, "corpus_deadlock": deadlock, "corpus_locks": locks, "corpus_sync": sync, "corpus_mpsc": mpsc}
